@@ -16,23 +16,24 @@ def flatM {α : Type} (m : Geom_Matrix α) : Geom.Matrix α := ⟨m.ScaleX, m.Sk
 
 end GenTieGeom
 
-/-- `geo_tie [model definitions]`: state a `Bool` equation as an equivalence; unfold every generated definition
-    (`gen_def`) and the model definitions while turning `Bool` connectives into propositions (before the flattening maps
-    are unfolded, so that the `Decidable` instances under a `decide` still match when it is removed); unfold the
-    flattening maps; split every `if`; close each case propositionally (the comparisons of `α` are opaque atoms) -/
-syntax "geo_tie" "[" Lean.Parser.Tactic.simpLemma,* "]" : tactic
+/-- `geo_tie [the generated definition, its model function] [model helpers]`: state a `Bool` equation as an
+    equivalence; unfold the two functions under study while turning `Bool` connectives into propositions, THEN the
+    helpers they call (every other generated definition, `gen_def`, and the listed model helpers), THEN the flattening
+    maps — in this order, so that the `Decidable` instance under a `decide` still matches its proposition when the
+    `decide` is removed; split every `if`; close each case propositionally (the comparisons of `α` are opaque atoms) -/
+syntax "geo_tie" "[" Lean.Parser.Tactic.simpLemma,* "]" "[" Lean.Parser.Tactic.simpLemma,* "]" : tactic
 macro_rules
-  | `(tactic| geo_tie []) => `(tactic| geo_tie [eq_self_iff_true])
-  | `(tactic| geo_tie [$ls,*]) => `(tactic|
+  | `(tactic| geo_tie [$ts,*] []) => `(tactic| geo_tie [$ts,*] [eq_self_iff_true])
+  | `(tactic| geo_tie [$ts,*] [$ls,*]) => `(tactic|
       (try with_reducible refine Bool.eq_iff_iff.mpr ?_) <;>
-      (simp only [gen_def, $ls,*, Bool.and_eq_true, Bool.or_eq_true, decide_eq_true_eq, Bool.ite_eq_true_distrib,
+      (simp only [$ts,*, Bool.and_eq_true, Bool.or_eq_true, decide_eq_true_eq, Bool.ite_eq_true_distrib,
         Bool.ite_eq_false_distrib, Bool.not_eq_true', decide_eq_false_iff_not, Bool.false_eq_true, Bool.true_eq_false,
-        eq_self_iff_true, gt_iff_lt, ge_iff_le]) <;>
-      (try simp only [GenTieGeom.flatP, GenTieGeom.flatR, GenTieGeom.flatI, GenTieGeom.flatM]) <;>
-      (try split_ifs) <;>
-      (try simp only [decide_eq_true_eq, decide_eq_false_iff_not, Bool.and_eq_true, Bool.or_eq_true,
-        Bool.ite_eq_true_distrib, Bool.ite_eq_false_distrib]) <;>
-      (try split_ifs) <;>
+        eq_self_iff_true]) <;>
+      (try simp only [gen_def, $ls,*, Bool.and_eq_true, Bool.or_eq_true, decide_eq_true_eq, Bool.ite_eq_true_distrib,
+        Bool.ite_eq_false_distrib, Bool.not_eq_true', decide_eq_false_iff_not, Bool.false_eq_true, Bool.true_eq_false,
+        eq_self_iff_true]) <;>
+      (try simp only [GenTieGeom.flatP, GenTieGeom.flatR, GenTieGeom.flatI, GenTieGeom.flatM, gt_iff_lt, ge_iff_le]) <;>
+      (try split_ifs) <;> (repeat' split) <;>
       first
       | with_reducible rfl
       | (simp_all only [not_true_eq_false, not_false_eq_true, and_self, and_true,
